@@ -4,6 +4,9 @@ import FcpptProofs.C16.Find
 import FcpptProofs.C16.Strings
 import FcpptProofs.C16.Assoc
 import FcpptProofs.C16.BSearch
+import FcpptProofs.C16.BSearchAny
+import FcpptProofs.C16.Assoc2
+import FcpptProofs.C16.Extra
 /-!
 # C16 — property theorems
 
@@ -173,6 +176,16 @@ theorem map_iteration_spec (m : Map) (rm : Nat × Nat → Bool) :
     mapIteration m (fun e (log : List (Nat × Nat)) => (rm e, log ++ [e])) [] = (m.filter (fun x => !rm x), m) := by
   simpa [mapIteration] using iterate_eq rm [] m []
 
+/-- the same for an arbitrary state-dependent action (it may count, remember what it has seen, …): every element is offered
+    exactly once, in order, with the state left by the previous call; exactly the elements answered with `remove` are gone -/
+theorem sequence_iteration_general (xs : List α) (action : α → σ → Bool × σ) (s : σ) :
+    seqIteration xs action s = (Spec.kept xs (Spec.decisions action xs s).1, (Spec.decisions action xs s).2) := by
+  simpa [seqIteration] using iterate_general action [] xs s
+
+theorem map_iteration_general (m : Map) (action : Nat × Nat → σ → Bool × σ) (s : σ) :
+    mapIteration m action s = (Spec.kept m (Spec.decisions action m s).1, (Spec.decisions action m s).2) := by
+  simpa [mapIteration] using iterate_general action [] m s
+
 /-! ## container helpers -/
 
 theorem join_spec (first : List β) (args : List (List β)) : join first args = first ++ args.flatten := join_eq first args
@@ -259,6 +272,246 @@ theorem tuple_map_spec (t : List α) (f : α → β) : tupleMap t f = .ok (t.map
 theorem tuple_concat_spec (ts : List (List α)) : tupleConcat ts = ts.flatten := tupleConcat_eq ts
 theorem tuple_push_back_spec (t : List α) (x : α) : tuplePushBack t x = .ok (t ++ [x]) := tuplePushBack_eq t x
 
+/-! ## equal_range / binary_search on arbitrary input (sorted or not, any comparison) -/
+
+/-- for every list and every comparison function `equal_range` terminates within its loop budget, never dereferences
+    outside the range, and returns positions `a ≤ b ≤ size`; a one-element result is an element equivalent to `v` -/
+theorem equal_range_any (lt : α → α → Bool) (xs : List α) (v : α) :
+    ∃ a b, equalRange lt xs v = .ok (a, b) ∧ a ≤ b ∧ b ≤ xs.length ∧
+      (a + 1 = b → ∃ h : a < xs.length, lt xs[a] v = false ∧ lt v xs[a] = false) := equalRange_any lt xs v
+
+/-- `binary_search` on arbitrary input: no fault, and an iterator it returns can be dereferenced and points at an
+    element equivalent to the value searched for -/
+theorem binary_search_any (lt : α → α → Bool) (xs : List α) (v : α) :
+    ∃ r, binarySearch lt xs v = .ok r ∧ ∀ i, r = some i → ∃ h : i < xs.length, Spec.equiv lt v xs[i] = true :=
+  binarySearch_any lt xs v
+
+/-- `range::singular`: exactly one element -/
+theorem singular_spec (i j : Nat) : singular (i, j) = decide (i + 1 = j) := by
+  unfold singular
+  by_cases h : i + 1 = j
+  · have : ¬ i = j := by omega
+    simp [h, this]
+  · simp [h]
+
+theorem range_singular_spec (xs : List α) : rangeSingular xs = decide (xs.length = 1) := rangeSingular_eq xs
+
+/-! ## the reserve optimisation of `map` -/
+
+/-- `map` reserves exactly the source's size when it is known, once, and never otherwise -/
+theorem map_reserve_spec (hint : Option Nat) (xs : List α) (f : α → β) : (mapSeq hint xs f).1.cap = hint.getD 0 := by
+  unfold mapSeq
+  rw [loop_eq_foldl]
+  have h : ∀ (c : Cont β) (log : List α),
+      (xs.foldl (fun (s : Cont β × List α) x => (s.1.insertEndSeq (f x), s.2 ++ [x])) (c, log)).1.cap = c.cap := by
+    induction xs with
+    | nil => intro c log; rfl
+    | cons x xs ih => intro c log; simp only [List.foldl_cons]; rw [ih]; rfl
+  rw [h]
+  cases hint <;> simp [Cont.reserve]
+
+/-! ## references and aliasing -/
+
+/-- `loop` over a non-const lvalue range with an assigning body rewrites every element once, in place -/
+theorem loop_ref_spec (xs : List α) (f : α → α) : loopRef xs f = xs.map f := loopRef_eq xs f
+
+/-- `loop_break` with an assigning body: exactly the elements up to and including the first `break_` are rewritten -/
+theorem loop_break_ref_spec (brk : α → Bool) (new : α → α) (xs : List α) (body : α → Loop × α)
+    (hb : ∀ x, body x = (if brk x then .break_ else .continue_, new x)) :
+    loopBreakRef xs body = (xs.take (xs.findIdx brk + 1)).map new ++ xs.drop (xs.findIdx brk + 1) :=
+  loopBreakRef_eq brk new xs body hb
+
+/-- `remove(c, c[i])`: the element to remove may be a reference into the container (it is captured by value): every
+    occurrence disappears, the flag is `true` -/
+theorem remove_alias_spec [BEq α] [LawfulBEq α] (xs junk : List α) (i : Nat) (h : i < xs.length) :
+    remove xs junk xs[i] = (true, xs.filter (fun r => !(xs[i] == r))) := by
+  rw [remove_spec]
+  congr 1
+  simp only [List.any_eq_true]
+  exact ⟨xs[i], List.getElem_mem h, by simp⟩
+
+/-- searching a container for (a reference to) one of its own elements always succeeds -/
+theorem contains_alias [BEq α] [LawfulBEq α] (xs : List α) (i : Nat) (h : i < xs.length) : contains xs xs[i] = true :=
+  (contains_mem xs xs[i]).2 (List.getElem_mem h)
+
+/-- `find_opt(c, c[i])` / `index_of(c, c[i])`: the first occurrence, which is at or in front of position `i` -/
+theorem find_opt_alias [BEq α] [LawfulBEq α] (xs : List α) (i : Nat) (h : i < xs.length) :
+    ∃ j, findOpt xs xs[i] = some j ∧ indexOf xs xs[i] = some j ∧ j ≤ i ∧ xs[j]? = some xs[i] := by
+  rw [index_of_spec, find_opt_spec]
+  cases hj : xs.idxOf? xs[i] with
+  | none =>
+    rw [List.idxOf?, List.findIdx?_eq_none_iff] at hj
+    have := hj xs[i] (List.getElem_mem h)
+    simp at this
+  | some j =>
+    refine ⟨j, rfl, rfl, ?_, find_opt_valid xs xs[i] j (by rw [find_opt_spec, hj])⟩
+    rw [List.idxOf?, List.findIdx?_eq_some_iff_getElem] at hj
+    obtain ⟨_, _, hmin⟩ := hj
+    by_cases hle : j ≤ i
+    · exact hle
+    · have := hmin i (by omega)
+      simp at this
+
+/-! ## value categories: an lvalue source is left untouched, an rvalue source is consumed element by element -/
+
+theorem map_vc_spec (rv : Bool) (moved : α) (xs : List α) (f : α → β) :
+    mapVC rv moved xs f = (xs.map f, Spec.consumed rv moved xs) := mapVC_eq rv moved xs f
+
+/-- in particular `map` does not modify a source passed as an lvalue -/
+theorem map_lvalue_source_unchanged (moved : α) (xs : List α) (f : α → β) : (mapVC false moved xs f).2 = xs := by
+  simp [mapVC_eq, Spec.consumed]
+
+theorem join_vc_spec (moved : α) (first : List α) (args : List (Bool × List α)) :
+    joinVC moved first args = (first ++ (args.map (·.2)).flatten, args.map fun c => Spec.consumed c.1 moved c.2) :=
+  joinVC_eq moved first args
+
+theorem array_map_vc_spec (rv : Bool) (moved : α) (src : List α) (f : α → β) :
+    arrayMapVC rv moved src f = .ok (src.map f, Spec.consumed rv moved src) := arrayMapVC_eq rv moved src f
+
+theorem array_append_vc_spec (rv1 rv2 : Bool) (moved : α) (a1 a2 : List α) :
+    arrayAppendVC rv1 rv2 moved a1 a2 = .ok (a1 ++ a2, Spec.consumed rv1 moved a1, Spec.consumed rv2 moved a2) :=
+  arrayAppendVC_eq rv1 rv2 moved a1 a2
+
+theorem array_join3_vc_spec (rv1 rv2 rv3 : Bool) (moved : α) (a1 a2 a3 : List α) :
+    arrayJoin3VC rv1 rv2 rv3 moved a1 a2 a3 =
+      .ok (a1 ++ a2 ++ a3, Spec.consumed rv1 moved a1, Spec.consumed rv2 moved a2, Spec.consumed rv3 moved a3) :=
+  arrayJoin3VC_eq rv1 rv2 rv3 moved a1 a2 a3
+
+theorem array_push_back_vc_spec (rv rvx : Bool) (moved : α) (src : List α) (x : α) :
+    arrayPushBackVC rv rvx moved src x = .ok (src ++ [x], Spec.consumed rv moved src, if rvx then moved else x) :=
+  arrayPushBackVC_eq rv rvx moved src x
+
+theorem array_from_range_vc_spec (rv : Bool) (moved : α) (size : Nat) (src : List α) :
+    arrayFromRangeVC rv moved size src = if src.length = size then some (.ok (src, Spec.consumed rv moved src)) else none :=
+  arrayFromRangeVC_eq rv moved size src
+
+theorem tuple_map_vc_spec (rv : Bool) (moved : α) (t : List α) (f : α → β) :
+    tupleMapVC rv moved t f = .ok (t.map f, Spec.consumed rv moved t) := arrayMapVC_eq rv moved t f
+
+theorem tuple_push_back_vc_spec (rv rvx : Bool) (moved : α) (t : List α) (x : α) :
+    tuplePushBackVC rv rvx moved t x = .ok (t ++ [x], Spec.consumed rv moved t, if rvx then moved else x) :=
+  tuplePushBackVC_eq rv rvx moved t x
+
+theorem tuple_concat_vc_spec (moved : α) (ts : List (Bool × List α)) :
+    tupleConcatVC moved ts = ((ts.map (·.2)).flatten, ts.map fun t => Spec.consumed t.1 moved t.2) :=
+  tupleConcatVC_eq moved ts
+
+/-- `container::make`: the arguments in order; every argument is moved from -/
+theorem make_spec (moved : α) (args : List α) : makeContainer moved args = .ok (args, args.map fun _ => moved) :=
+  makeContainer_eq moved args
+
+/-- `move_range`: the const view shows the elements, the non-const iterators hand every element out once, in order,
+    and leave it moved-from -/
+theorem move_range_spec (moved : α) (xs : List α) : moveRange moved xs = (xs, xs, xs.map fun _ => moved) :=
+  moveRange_eq moved xs
+
+/-! ## equal -/
+
+theorem equal_spec [BEq α] [LawfulBEq α] (bothRandomAccess : Bool) (xs ys : List α) :
+    equal bothRandomAccess xs ys = (xs == ys) := equal_eq bothRandomAccess xs ys
+
+theorem equal_iff [BEq α] [LawfulBEq α] (bothRandomAccess : Bool) (xs ys : List α) :
+    equal bothRandomAccess xs ys = true ↔ xs = ys := by
+  rw [equal_eq]; exact beq_iff_eq
+
+/-! ## secondary entry points -/
+
+theorem map_iteration_second_spec (m : Map) (rm : Nat → Bool) :
+    mapIterationSecond m (fun v (log : List Nat) => (rm v, log ++ [v])) [] = (m.filter (fun e => !rm e.2), m.map (·.2)) :=
+  mapIterationSecond_eq m rm
+
+/-- `get_or_insert` returns the element of `get_or_insert_with_result` and has the same effect -/
+theorem get_or_insert_plain_spec (m : Map) (k : Nat) (create : Nat → σ → Nat × σ) (s : σ) (hs : Spec.StrictSorted (m.map (·.1))) :
+    getOrInsertPlain m k create s =
+      match m.lookup k with
+      | some e => (.ok e, m, s)
+      | none => (.ok (create k s).1, mapEmplace k (create k s).1 m, (create k s).2) := by
+  rw [getOrInsertPlain_eq, get_or_insert_spec m k create s hs]
+  cases m.lookup k <;> rfl
+
+/-- `map_values_ref`: one reference per entry, in order, each to the mapped object of that entry -/
+theorem map_values_ref_spec (m : Map) : mapValuesRef m = List.range m.length := mapValuesRef_eq m
+
+theorem map_array_spec (src : List α) (f : α → β) : mapArray src f = .ok (src.map f) := arrayMap_eq src f
+theorem map_tuple_spec (t : List α) (f : α → β) : mapTuple t f = .ok (t.map f) := arrayMap_eq t f
+theorem reverse_rvalue_spec (xs : List α) : reverseRvalue xs = .ok xs.reverse := reverse_eq xs
+
+/-! ## find_opt_iterator, find_opt, contains, insert -/
+
+theorem find_opt_iterator_spec (m : Map) (k : Nat) : findOptIterator m k = m.findIdx? (fun e => e.1 == k) :=
+  findOptIterator_eq m k
+
+/-- `container::find_opt` refers to the first (for a map: the) entry with the key; the reference is valid -/
+theorem container_find_opt_spec (m : Map) (k : Nat) :
+    containerFindOpt m k = (m.find? (fun e => e.1 == k)).map Except.ok := containerFindOpt_eq m k
+
+/-- `find_opt_mapped` is `.second` of what `find_opt` refers to -/
+theorem find_opt_mapped_via_find_opt (m : Map) (k : Nat) :
+    (findOptMapped m k).map Except.ok = (containerFindOpt m k).map (fun r => r.map (·.2)) :=
+  findOptMapped_eq_findOpt m k
+
+theorem container_contains_spec (keys : List Nat) (k : Nat) : containerContains keys k = true ↔ k ∈ keys :=
+  containerContains_iff keys k
+
+/-- `container::insert` into a map: `true` iff the key was absent; then (and only then) the pair is in the map afterwards -/
+theorem map_insert_spec (m : Map) (kv : Nat × Nat) (k' : Nat) (hs : Spec.StrictSorted (m.map (·.1))) :
+    (mapInsert m kv).1 = (m.lookup kv.1).isNone
+    ∧ (mapInsert m kv).2.lookup k' = (if k' = kv.1 then (match m.lookup kv.1 with | some e => some e | none => some kv.2) else m.lookup k')
+    ∧ Spec.StrictSorted ((mapInsert m kv).2.map (·.1)) := by
+  rw [mapInsert_eq]
+  cases h : m.lookup kv.1 with
+  | none =>
+    have := map_emplace_spec kv.1 kv.2 k' m hs
+    simp only [h] at this
+    simp [this.1, this.2]
+  | some e =>
+    simp only [Option.isSome_some, if_true, Option.isNone_some, hs, and_true, true_and]
+    by_cases hk : k' = kv.1
+    · subst hk; simp [h]
+    · simp [hk]
+
+/-- `container::insert` into a set -/
+theorem set_insert_spec (s : List Nat) (x : Nat) (hs : Spec.StrictSorted s) :
+    (setInsertFlag s x).1 = !s.contains x
+    ∧ Spec.StrictSorted (setInsertFlag s x).2 ∧ ∀ y, y ∈ (setInsertFlag s x).2 ↔ y = x ∨ y ∈ s := by
+  rw [setInsertFlag_eq]
+  by_cases h : s.contains x = true
+  · have hx : x ∈ s := by simpa using h
+    simp only [h, if_true, Bool.not_true, hs, true_and]
+    intro y
+    constructor
+    · exact Or.inr
+    · rintro (rfl | h') <;> assumption
+  · simp only [h, Bool.false_eq_true, if_false, true_and]
+    exact ⟨strictSorted_setInsert x s hs, fun y => mem_setInsert x y s⟩
+
+/-! ## maybe_front / maybe_back / pop_back / pop_front / size / data / dynamic_array / output -/
+
+theorem maybe_front_spec (xs : List α) : maybeFront xs = xs.head?.map Except.ok := maybeFront_eq xs
+theorem maybe_back_spec (xs : List α) : maybeBack xs = xs.getLast?.map Except.ok := maybeBack_eq xs
+theorem pop_back_spec (xs : List α) : popBack xs = (xs.getLast?.map Except.ok, xs.dropLast) := popBack_eq xs
+theorem pop_front_spec (xs : List α) : popFront xs = (xs.head?.map Except.ok, xs.tail) := popFront_eq xs
+
+/-- `container::size` is the number of elements whether or not the range has `size()` -/
+theorem container_size_spec (hasSize : Bool) (xs : List α) : containerSize hasSize xs = xs.length := containerSize_eq hasSize xs
+
+/-- `data_end(c) - data(c) = c.size()` for a non-empty container; both are null for an empty one (and `nullptr + 0` is
+    the only pointer arithmetic done on a null pointer) -/
+theorem data_end_spec (xs : List α) :
+    data xs = (if xs.isEmpty then none else some 0) ∧ dataEnd xs = .ok (if xs.isEmpty then none else some xs.length) :=
+  ⟨rfl, dataEnd_eq xs⟩
+
+/-- `dynamic_array(n)`: `size() = data_end() - data() = n`; once every cell has been written, every cell reads back what
+    was written (no read of an uninitialised cell, no access outside the allocation) -/
+theorem dynamic_array_spec (n : Nat) (g : Nat → α) :
+    (DynArray.mk' n : DynArray α).size = n ∧ (DynArray.mk' n : DynArray α).extent = n
+    ∧ DynArray.fillRead n g = .ok ((List.range n).map g) := by
+  refine ⟨DynArray.size_mk' n, ?_, DynArray.fillRead_eq n g⟩
+  simp [DynArray.mk', DynArray.extent]
+
+theorem output_spec (render : α → List Char) (xs : List α) :
+    output render xs = ['['] ++ [','].intercalate (xs.map render) ++ [']'] := output_eq render xs
+
 /-! ## Non-vacuity and concrete instances -/
 
 example : Spec.SortedBy (fun a b : Nat => decide (a < b)) [0, 1, 1, 2] := by unfold Spec.SortedBy; decide
@@ -275,5 +528,19 @@ example : removeIf [1, 0, 1, 2] [9, 9, 9, 9] (· == 1) = (true, [0, 2]) := by de
 example : (allOf [0, 0, 1, 0] (· == 0)).2 = [0, 0, 1] := by rw [all_of_spec]; decide
 example : Spec.StrictSorted [0, 2] ∧ (getOrInsert [(0, 5), (2, 7)] 1 (fun k (n : Nat) => (k + 10, n + 1)) 0)
     = (.ok (11, true), [(0, 5), (1, 11), (2, 7)], 1) := ⟨by unfold Spec.StrictSorted; decide, by rfl⟩
+
+-- a state-dependent action: remove every second element offered
+example : seqIteration [5, 6, 7, 8] (fun _ (n : Nat) => (n % 2 == 1, n + 1)) 0 = ([5, 7], 4) := by
+  rw [sequence_iteration_general]; decide
+-- value categories: an rvalue first and an lvalue second argument of `array::append`
+example : arrayAppendVC true false 9 [0, 1] [2] = .ok ([0, 1, 2], [9, 9], [2]) := by decide
+-- `remove(c, c[0])` on [1, 0, 1]: both 1s go although the first one is overwritten while `std::remove_if` runs
+example : remove [1, 0, 1] [7, 7, 7] ([1, 0, 1][0]) = (true, [0]) := by decide
+-- binary_search on unsorted input: whatever it returns is an equivalent element (here: finds nothing although 0 occurs)
+example : binarySearch (fun a b : Nat => decide (a < b)) [2, 1, 0] 0 = .ok none := by rfl
+example : binarySearch (fun a b : Nat => decide (a < b)) [1, 0, 2, 3] 2 = .ok (some 2) := by rfl
+example : output (fun n : Nat => (toString n).toList) [1, 22, 3] = "[1,22,3]".toList := by rw [output_spec]; decide
+example : mapInsert [(0, 5), (2, 7)] (2, 9) = (false, [(0, 5), (2, 7)]) ∧ mapInsert [(0, 5), (2, 7)] (1, 9) = (true, [(0, 5), (1, 9), (2, 7)]) := by
+  decide
 
 end Fcppt.C16
